@@ -6,6 +6,7 @@ equality is an equivalence). Tie: the real alias_trie with the parser's real key
 specification) judges every answer of the implementation directly."""
 import itertools
 import os
+import re
 import subprocess
 import sys
 
@@ -241,6 +242,92 @@ def shrink(toks, hist, bad):
     return cur
 
 
+# ---- second leg: the real parser on modules whose Kombinationen print alike -------------------------
+MOD_TMPL = """Binde "Duden/Ausgabe" ein.
+Wir nennen die öffentliche Kombination aus
+	der öffentlichen Zahl x mit Standardwert %(i)d,
+einen Punkt, und erstellen sie so:
+	"ein Punkt%(i)d"
+
+Der öffentliche Punkt p%(i)d ist ein Punkt%(i)d.
+
+Die öffentliche Funktion zeige%(i)d mit dem Parameter p vom Typ Punkt, gibt nichts zurück, macht:
+	Schreibe die Zahl %(i)d.
+Und kann so benutzt werden:
+	"zeige <p>"
+"""
+
+
+def parser_leg(ck, b):
+    import json
+    parsex, lg = b.ensure_go("parsex")
+    ok, lg2 = b.ensure_native()
+    if not parsex or not ok:
+        ck.broken_obligation("parsex/kddp do not build", (lg + lg2)[-1500:])
+        return
+    sc = vlib.scratch()
+    k = 3 if ck.quick else 4
+    for i in range(1, k + 1):
+        open(os.path.join(sc, "m%d.ddp" % i), "w").write(MOD_TMPL % dict(i=i))
+    reqs = []
+    perms = list(itertools.permutations(range(1, k + 1)))
+    for n, perm in enumerate(perms):
+        src = "".join('Binde zeige%d und p%d aus "m%d" ein.\n' % (i, i, i) for i in perm)
+        src += "".join("zeige p%d.\n" % i for i in range(1, k + 1))
+        f = os.path.join(sc, "main_%d.ddp" % n)
+        open(f, "w").write(src)
+        reqs.append(dict(id="perm%d" % n, file=f, ast=True, want=[("zeige%d" % i) for i in range(1, k + 1)], dup=False, src=None, perm=perm))
+        # a local duplicate of module perm[0]'s alias (same pattern, same parameter type) must be rejected
+        d = perm[0]
+        src2 = "".join('Binde zeige%d und p%d aus "m%d" ein.\n' % (i, i, i) for i in perm if i != d)
+        src2 += 'Binde zeige%d und p%d und Punkt aus "m%d" ein.\n' % (d, d, d)
+        src2 += 'Die Funktion lokal mit dem Parameter p vom Typ Punkt, gibt nichts zurück, macht:\n\tSchreibe die Zahl 0.\nUnd kann so benutzt werden:\n\t"zeige <p>"\n'
+        f2 = os.path.join(sc, "dup_%d.ddp" % n)
+        open(f2, "w").write(src2)
+        reqs.append(dict(id="dup%d" % n, file=f2, ast=False, want=None, dup=True, perm=perm))
+    inp = "\n".join(json.dumps(dict(id=r["id"], file=r["file"], ast=r["ast"])) for r in reqs) + "\n"
+    p = subprocess.run([parsex], input=inp, capture_output=True, text=True, env=dict(os.environ, DDPPATH=b.dir), timeout=300)
+    res = {}
+    for l in p.stdout.splitlines():
+        try:
+            o = json.loads(l); res[o["id"]] = o["obs"]
+        except Exception:
+            pass
+    for r in reqs:
+        ck.count()
+        o = res.get(r["id"])
+        replay = dict(modules={("m%d.ddp" % i): MOD_TMPL % dict(i=i) for i in range(1, k + 1)}, main=open(r["file"]).read())
+        if o is None:
+            ck.violation("parser-leg crash import-order=%s" % (r["perm"],), "the frontend died on modules exporting print-alike Kombinationen (worker gave no answer): %s" % p.stderr[-300:], replay)
+            continue
+        ck.nontrivial(("parserleg", r["id"]))
+        if o.get("panic"):
+            ck.violation("parser-leg panic import-order=%s" % (r["perm"],), "panic: %s %s" % (o["panic"][:200], o.get("panic_frames")), replay)
+            continue
+        errs = [d for d in (o.get("diags") or []) if d["level"] == 2]
+        if r["dup"]:
+            if not errs:
+                ck.violation("parser-leg duplicate-accepted import-order=%s" % (r["perm"],), "a local alias coinciding with an imported one (same pattern, same parameter type) was accepted without a diagnostic", replay)
+        else:
+            if errs:
+                ck.violation("parser-leg spurious-diagnostic import-order=%s" % (r["perm"],), "aliases with the same pattern over distinct print-alike types were diagnosed: %s" % errs[:2], replay)
+                continue
+            calls = re.findall(r"^\(ExprStmt\s*\n   \(FuncCall\[(\w+)\]", o.get("ast") or "", re.M)
+            if calls != r["want"]:
+                ck.violation("parser-leg wrong-callee import-order=%s" % (r["perm"],), "call sites resolved to %s, expected %s" % (calls, r["want"]), replay)
+    # one permutation end to end
+    f = reqs[0]["file"]
+    exe = os.path.join(sc, "main_exe")
+    r = b.compile(f, exe, cwd=sc)
+    if r["stage"] == "ok":
+        rc, out, err = b.run(exe)
+        ck.count()
+        want = "".join(str(i) for i in range(1, k + 1)).encode()
+        if rc != 0 or out != want:
+            ck.violation("parser-leg run", "compiled program prints %r (exit %d), expected %r" % (out, rc, want), dict(main=open(f).read()))
+    ck.cov["parser_leg_programs"] = len(reqs)
+
+
 def main():
     ck = Check(PID, "proof")
     b = Build()
@@ -335,6 +422,7 @@ def main():
         vocabulary=len(toks), predicate_pairs=n * n, exhaustive=False,
         rule="histories of Declare/Lookup/Search/Copy over %d tokens (placeholders of 17 types x value/Referenz incl. three Kombinationen printed 'Punkt', aliases, definitions, lists); "
              "non-trivial = at least two distinct declared keys or a rejected duplicate; distinct by operation sequence; all insertion orders of every %d-subset of the print-alike pool enumerated" % (len(toks), 4 if ck.quick else 5)))
+    parser_leg(ck, b)
     ck.sample(dict(history=hist_lines(hists[0]), implementation=impl[0], model=mod[0]))
     ck.sample(dict(history=hist_lines(hists[-1]), implementation=impl[-1], model=mod[-1]))
     ck.finish()
